@@ -135,7 +135,13 @@ def ag7(m, run, rule='AG7.active-control-points'):
                 and not isinstance(getattr(x, '_sa_parent', None), ast.Subscript)]
         subs = [x for x in subs if (norm(x.value).endswith(('.ctrlpts', '.ctrlpts2d')) or (isinstance(x.value, ast.Subscript) and norm(x.value.value).endswith('.ctrlpts2d')))]
         if not subs:
-            raise AnalysisError('%s: control point subscript not found' % fi.key)
+            # the net is addressed through the flat array: the stride rule decides whether (u-part, v-part) are composed canonically
+            n_flat = rl.ly1_canonical(m, run, [fi], rule=rule)
+            if n_flat == 0:
+                raise AnalysisError('%s: control point subscript not found' % fi.key)
+            run.note(rule, fi.key, 'active control points are read from the flat array: composition checked by the stride rule (v + Sv*u), '
+                     'the span - degree + i form of each part is not separated in this spelling')
+            continue
         R = rl.Resolver(fi)
         for x in subs:
             chain = []
